@@ -21,13 +21,28 @@ LEVEL_TEXT = ("Lean theorems about the index state machine (Phil.Index), generic
 LEVEL_NOTE = ("Masters are fully typed (the index requires it); every fourth has multiples nested in multiple scopes. "
               "The style/menu half of the index is not modelled.")
 TECHNIQUE = "Lean 4 invariant proof over operation histories of an abstract state machine (refinement) + differential correspondence"
-RULE = ("fully typed masters x histories of 1-25 operations over {update(text), merge_phil(string), update_from_python, "
+RULE = ("fully typed masters x histories of 1-25 operations over {update(text[, only_scope]), merge_phil(string / object[, only_scope]), merge_param_file, update_from_python, "
         "push_state, pop_state, set_state, get_python_object} with edit texts generated from the master; non-trivial = the "
         "history contains an edit and a state operation; distinct = (master, history)")
 ASSUMPTIONS = ["values compared on active parameters"]
 
 
-def gen_history(rng, tree):
+def scope_paths(m):
+    """full paths of the scopes of a parsed master (candidates for `only_scope`)"""
+    out = []
+
+    def walk(o):
+        for c in o.objects:
+            if c.is_scope:
+                p = c.full_path()
+                if p and p not in out:
+                    out.append(p)
+                walk(c)
+    walk(m)
+    return out
+
+
+def gen_history(rng, tree, scopes=()):
     ops = []
     depth = 0
     for _ in range(rng.choice([1, 3, 6, 12, 25])):
@@ -37,7 +52,14 @@ def gen_history(rng, tree):
             if t:
                 # the same edit through one of the entry points: update(string), merge_phil(string / parsed object),
                 # merge_param_file(file)
-                ops.append(["update", t, rng.choice(["update", "update", "string", "object", "file"])])
+                via = rng.choice(["update", "update", "string", "object", "file"])
+                op = ["update", t, via]
+                # a third of the update / merge_phil calls pass only_scope=<a scope path of the master> (sometimes a
+                # path that names nothing); merge_param_file has no such argument
+                if via != "file" and rng.random() < 0.34:
+                    op.append(rng.choice(list(scopes) + ["no_such_scope"]) if scopes and rng.random() < 0.9
+                              else "no_such_scope")
+                ops.append(op)
         elif k < 0.5:
             ops.append(["push"])
             depth += 1
@@ -70,6 +92,67 @@ def live_paths(idx):
                 walk(c, inside_multiple or bool(c.multiple))
     walk(idx.working_phil, False)
     return out
+
+
+def index_obs(idx):
+    """`_full_path_index` against a document-order walk of `working_phil` (pre-order, root = 0, every object, templates
+    too): one row [path, kind, count, positions] per key, keys sorted.  An indexed object is located by IDENTITY (id() of
+    the objects met by the walk, i.e. `is`); position -1 = the indexed object is NOT an object of the working tree.
+    Inside `.multiple` scopes template copies share their children (finding D21), so one object can sit at several
+    positions: the k-th occurrence of an object in a list entry is its k-th position among the objects the re-index
+    visits (those not below an object with is_template < 0), a single entry is its last such position."""
+    visited, anywhere = {}, {}
+    counter = [0]
+
+    def number(o, skipped):
+        p = counter[0]
+        counter[0] += 1
+        skipped = skipped or o.is_template < 0
+        anywhere.setdefault(id(o), []).append(p)
+        if not skipped:
+            visited.setdefault(id(o), []).append(p)
+        if o.is_scope:
+            for c in o.objects:
+                number(c, skipped)
+    number(idx.working_phil, False)
+
+    def places(x):
+        return visited.get(id(x)) or anywhere.get(id(x)) or []
+    rows = []
+    for path in sorted(idx._full_path_index):
+        v = idx._full_path_index[path]
+        if isinstance(v, list):
+            seen, ps = {}, []
+            for x in v:
+                k = seen.get(id(x), 0)
+                seen[id(x)] = k + 1
+                pl = places(x)
+                ps.append(pl[k] if k < len(pl) else -1)
+            rows.append([enc(path), "many", len(v), ps])
+        else:
+            pl = places(v)
+            rows.append([enc(path), "one", 1, [pl[-1] if pl else -1]])
+    return rows
+
+
+def lookup_clause(idx):
+    """the lookup clause of the property on the CURRENT working tree, by identity: every path that is not inside a
+    multiple scope looks up to the live object(s) at that path — a list entry holds exactly the live objects of that
+    path in document order, a single entry is the (last) live object of that path, and nothing it returns is an object
+    of a discarded tree.  Returns a description of the first violation, or None."""
+    by_path = {}
+    for path, obj in live_paths(idx):
+        by_path.setdefault(path, []).append(obj)
+    for path, lives in by_path.items():
+        found = idx.get_scope_by_name(path)
+        if found is None:
+            return "path %s of the working tree is not in the index" % path
+        if isinstance(found, list):
+            if len(found) != len(lives) or not all(f is o for f, o in zip(found, lives)):
+                return "path %s does not look up to exactly the live objects of the working tree" % path
+        elif found is not lives[-1]:
+            return "path %s does not look up to the live object of the working tree" % path
+    return None
 
 
 _EDITDIR = None
@@ -106,7 +189,7 @@ def run_history(m, ops):
         def observe(got):
             texts.append(idx.working_phil.as_str())
             obs.append([enc(idx.working_phil.as_str()), idx.params is not None, bool(idx._phil_has_changed),
-                        len(idx._states), None if got is None else ["got", to_pval(got)]])
+                        len(idx._states), None if got is None else ["got", to_pval(got)], index_obs(idx)])
         observe(None)
         for step, op in enumerate(ops):
             got = None
@@ -124,14 +207,21 @@ def run_history(m, ops):
                     fails.append((step, "index.copy() raised %s: %s" % (type(e).__name__, str(e)[:100])))
                     break
                 continue
-            wire.append([op[0], enc(op[1])] if op[0] == "update" else list(op))
+            only = op[3] if op[0] == "update" and len(op) > 3 else None
+            if op[0] == "update":
+                wire.append([op[0], enc(op[1])] + ([] if only is None else [enc(only)]))
+            else:
+                wire.append(list(op))
             try:
                 if op[0] == "update":
                     before = idx.working_phil.as_str()
                     via = op[2] if len(op) > 2 else "update"
                     try:
                         if via == "update":
-                            idx.update(op[1])
+                            if only is None:
+                                idx.update(op[1])
+                            else:
+                                idx.update(op[1], only_scope=only)
                         elif via == "file":
                             import os
                             fn = os.path.join(_editdir(), "edit_%d.params" % step)
@@ -145,10 +235,11 @@ def run_history(m, ops):
                                 m.fetch(source=pre)
                             except (RuntimeError, freephil.Sorry):
                                 raise freephil.Sorry("refused by the caller's validation")
+                            kw = {} if only is None else {"only_scope": only}
                             if via == "string":
-                                idx.merge_phil(phil_string=op[1])
+                                idx.merge_phil(phil_string=op[1], **kw)
                             else:
-                                idx.merge_phil(phil_object=pre)
+                                idx.merge_phil(phil_object=pre, **kw)
                     except freephil.Sorry:
                         pass
                     else:
@@ -156,7 +247,10 @@ def run_history(m, ops):
                         once = values()
                         try:
                             probe = index(master_phil=m, working_phil=m.fetch(source=idx.working_phil))
-                            probe.update(op[1])
+                            if only is None:
+                                probe.update(op[1])
+                            else:
+                                probe.update(op[1], only_scope=only)
                             if not close(_fetch.dump(probe.working_phil.extract()), once):
                                 fails.append((step, "applying the same edit twice changes the working parameters"))
                         except (freephil.Sorry, RuntimeError):
@@ -236,16 +330,10 @@ def run_history(m, ops):
             except BaseException as e:
                 fails.append((step, "operation %r raised %s: %s" % (op[0], type(e).__name__, str(e)[:100])))
                 break
-            # the path index is live
-            for path, obj in live_paths(idx):
-                found = idx.get_scope_by_name(path)
-                if isinstance(found, list):
-                    hit = any(f is obj for f in found)
-                else:
-                    hit = found is obj
-                if not hit:
-                    fails.append((step, "path %s does not look up to the live object of the working tree" % path))
-                    break
+            # the path index is live (also after update / merge_phil with only_scope)
+            bad = lookup_clause(idx)
+            if bad is not None:
+                fails.append((step, bad))
             observe(got)
     return obs, fails, texts, wire, list(fm.values())
 
@@ -264,11 +352,13 @@ def run(ctx):
                               further=rng.random() < 0.3).tree()
         mt = mgen.render_master(tree)
         m = freephil.parse(input_string=mt)
-        ops = gen_history(rng, tree)
+        ops = gen_history(rng, tree, scope_paths(m))
         kinds = {o[0] for o in ops}
         ctx.case((mt, repr(ops)), nontrivial=("update" in kinds and bool(kinds & {"push", "pop", "set", "from_python"})))
         for o in ops:
             ctx.count("op_" + o[0])
+            if o[0] == "update" and len(o) > 3:
+                ctx.count("op_update_only_scope")
         try:
             obs, fails, texts, wire, fm_extra = run_history(m, ops)
         except (freephil.Sorry, RuntimeError):
@@ -309,7 +399,7 @@ def run(ctx):
 
 def project(obs):
     """floats in handed-out objects are compared to 10 digits elsewhere; here compare text and flags"""
-    return [[o[0], o[1], o[2], o[3], o[4] is not None] if isinstance(o, list) else o for o in obs]
+    return [[o[0], o[1], o[2], o[3], o[4] is not None] + o[5:] if isinstance(o, list) else o for o in obs]
 
 
 def finding_still_fails(f):
